@@ -3,6 +3,7 @@ Unit system class.
 
 """
 
+import sys
 from collections import OrderedDict
 
 from unyt import dimensions
@@ -266,6 +267,14 @@ class UnitSystem:
         if self.units_map[cmks] is None and cmks in key.free_symbols:
             raise MissingMKSCurrent(self.name)
         self.units_map[key] = parse_unyt_expr(str(value))
+        # conversions of electromagnetic units memoise the unit this system
+        # had for a dimension; forget them now that the mapping has changed
+        # (unit_object is not importable yet while the built-in systems are
+        # being defined, and nothing can be memoised before it is)
+        unit_object = sys.modules.get("unyt.unit_object")
+        em_cache = getattr(unit_object, "_check_em_conversion", None)
+        if em_cache is not None:
+            em_cache.cache_clear()
 
     def __str__(self):
         return self.name
